@@ -132,7 +132,7 @@ def run_case(p, r):
 
 
 # ---- generators ------------------------------------------------------------------------------------------
-def rand_problem(rng, nmax=5, kmax=5, head_left=None, nbest=1, unary=True, beta=None, pruning=None, lo=40, max_step=None, dense=0.35):
+def rand_problem(rng, nmax=5, kmax=5, head_left=None, nbest=1, unary=True, beta=None, pruning=None, lo=40, max_step=None, dense=0.35, underflow=0.15):
     unary_heavy = unary and rng.random() < 0.15      # short sentences whose parses need chains of unary rules
     n = rng.randint(1, 2) if unary_heavy else rng.randint(1, nmax)
     K = rng.randint(2, kmax)            # lexical categories 0..K-1; derived categories may be K..K+2
@@ -155,7 +155,7 @@ def rand_problem(rng, nmax=5, kmax=5, head_left=None, nbest=1, unary=True, beta=
         roots = [ncat - 1]                # reachable only through the longest chains
     tag = [[-v / 8.0 for v in rng.sample(range(0, lo + 1), K)] for _ in range(n)]      # distinct within a row: the beam is unambiguous
     dep = [[-rng.randint(0, lo) / 8.0 for _ in range(n + 1)] for _ in range(n)]
-    if rng.random() < 0.15:
+    if rng.random() < underflow:
         # log-probabilities whose float32 exp() underflows to 0 (below about -104); the best tag of a row stays in the normal range
         for row in tag:
             b = max(range(K), key=lambda c: row[c])
